@@ -39,6 +39,7 @@ class Ann:
     attrs: Tuple[str, ...] = ()
     quat: Optional[Tuple[float, float, float, float]] = None  # overrides yaw when given
     key: Optional[str] = None  # scenario-level key
+    radar_pts: int = 0  # radar returns inside the box (a separate annotation field, not part of the lidar point count)
 
     def q(self) -> Tuple[float, float, float, float]:
         return self.quat if self.quat is not None else G.quat_from_yaw(self.yaw)
@@ -190,7 +191,7 @@ def write_dataset(root: str, spec: SceneSpec, tables: Optional[Dict[str, list]] 
                     "prev": "",
                     "next": "",
                     "num_lidar_pts": int(a.npts),
-                    "num_radar_pts": 0,
+                    "num_radar_pts": int(a.radar_pts),
                 }
             )
     by_tok = {r["token"]: r for r in sample_annotation}
